@@ -13,6 +13,7 @@ C(name, exp) == [c |-> name, e |-> exp]
 \* verdict of one event e in state s: [st |-> next specified state, bad |-> failed clauses]
 Judge(sch, s, e) ==
   CASE e.op = "reset" -> [st |-> PadInit, bad |-> <<>>]
+    [] e.op = "preset" -> [st |-> [s EXCEPT !.bitcnt = e.cnt], bad |-> <<>>]        \* the public bit counter assigned: as if that many bits went before
     [] e.op = "iter" ->
          LET x == Iter(sch, s, e.m, e.bitlen, e.padding) IN
          IF x.raises THEN [st |-> s, bad |-> IF e.raised = "" THEN <<C("must-refuse", "any exception")>> ELSE <<>>]
